@@ -137,6 +137,7 @@ def rec_generate_sets(prior_bins: BinsArray, best_partition_so_far: BinsArray, i
             new_bin2 = rec_generate_sets(prior_bins, best_partition_so_far, bin2items, total_numbins, current_numbins/2, trees, binner)
 
             combined_sums = np.append(binner.sums(new_bin1), binner.sums(new_bin2))
+            combined_sums = np.append(combined_sums, binner.sums(prior_bins))  # with 5 bins, the first bin is already chosen: the difference to minimize is that of the whole partition.
             diff = max(combined_sums) - min(combined_sums)
             if diff < best_difference_so_far:
                 best_partition_so_far = binner.concatenate_bins(new_bin1, new_bin2)
